@@ -42,7 +42,7 @@ ASSUMPTIONS = [
     'for that configuration',
 ]
 MINIMUMS = {
-    'quick': {'evaluations': 1500, 'ops': 15000, 'ops_suspended': 1500, 'tag_ops_by_index': 500,
+    'quick': {'evaluations': 1500, 'ops': 15000, 'ops_suspended': 1500, 'interposed:build-other': 100, 'tag_ops_by_index': 500,
               'value_changes_checked': 6000, 'thread_runs': 20, 'thread_entries': 20000,
               'locations_checked': 5000, 'helper_locations_checked': 300},
     'thorough': {'evaluations': 1000},
@@ -281,6 +281,31 @@ def op_json(op):
                                       if not isinstance(x, (int, str, type(None))) else x)) for x in op]
 
 
+def _interposed_calls(rng, cfg, acc):
+  """Public APIs that are no edits, called between edits (also inside a suspended block): a
+  build, a copy, a traversal, printing. None of them is an edit of cfg and none of them may
+  touch the tracking switch."""
+  import copy
+  from fiddle import printing
+  from fiddle._src import daglish
+  which = rng.choice(['build-other', 'build-this', 'deepcopy', 'iterate', 'print'])
+  acc.obs('interposed_calls')
+  acc.obs('interposed:' + which)
+  try:
+    if which == 'build-other':
+      fdl.build(fdl.Config(kinds.two, x=[fdl.Config(kinds.two, x=1)], y=2))
+    elif which == 'build-this':
+      fdl.build(cfg)
+    elif which == 'deepcopy':
+      copy.deepcopy(cfg)
+    elif which == 'iterate':
+      list(daglish.iterate(cfg))
+    else:
+      printing.as_str_flattened(cfg)
+  except Exception:  # pylint: disable=broad-except
+    acc.obs('interposed_call_raised')
+
+
 def run_history(rng, acc):
   fn = rng.choice(FNS)
   cnt = itertools.count(100)
@@ -324,8 +349,12 @@ def run_history(rng, acc):
             with history.suspend_tracking():
               pass
             # still suspended after the inner block ended
+          if rng.random() < 0.35:
+            _interposed_calls(rng, cfg, acc)     # other public APIs leave the switch alone
           new_cfg = apply_op(cfg, op)
       else:
+        if rng.random() < 0.05:
+          _interposed_calls(rng, cfg, acc)
         new_cfg = apply_op(cfg, op)
     except Exception as e:  # pylint: disable=broad-except
       outcome = type(e).__name__
@@ -420,12 +449,25 @@ def run_threads(spec, acc):
         per_key = {k: [e.sequence_id for e in lst] for k, lst in cfg.__argument_history__.items()}
         results[ti] = (per_key, suspended_added, history.tracking_enabled(), lost[0], wrong_loc)
 
+      # program order across threads: an edit made BEFORE the threads start happens before all
+      # of theirs, an edit made AFTER they were joined happens after all of theirs
+      anchor = fdl.Config(sigs.g_abc_d_va_vk)
+      anchor.a = 'before-start'
+      id_before = max(e.sequence_id for lst in anchor.__argument_history__.values() for e in lst)
       ts = [threading.Thread(target=body, args=(i,)) for i in range(nthreads)]
       for t in ts:
         t.start()
       for t in ts:
         t.join()
+      anchor.b = 'after-join'
+      id_after = anchor.__argument_history__['b'][-1].sequence_id
       acc.obs('thread_runs')
+      tids = [i_ for r_ in results if r_ is not None for ids_ in r_[0].values() for i_ in ids_]
+      if tids and not (id_before < min(tids) and max(tids) < id_after):
+        acc.violation('thread:sequence-ids-not-in-program-order-across-start-and-join',
+                      f'edit before start has id {id_before}, thread entries {min(tids)}..{max(tids)}, '
+                      f'edit after join has id {id_after}', {'threads': nthreads})
+      acc.obs('thread_runs_with_start_join_order_checked')
       all_ids = []
       if any(r_ is None for r_ in results):
         acc.violation('thread:body-crashed', 'a thread program raised', {'threads': nthreads})
